@@ -1512,4 +1512,199 @@ theorem aterminal_empty (cfg : Cfg) (raws : F → List Raw) (files : List F) (to
     simpa using this
 
 
+/-! ### received suppression state -/
+
+/-- the suppressions the parent will have received once these events are read -/
+def supsOf (cfg : Cfg) (evs : List Ev) : List Suppr :=
+  evs.filterMap fun e => match e with
+    | .suppr inl s => (match supprDecode cfg.simp inl (supprEncode s) with
+      | .ok s' => some s'
+      | .error _ => none)
+    | _ => none
+
+theorem supsOf_append (cfg : Cfg) (a b : List Ev) : supsOf cfg (a ++ b) = supsOf cfg a ++ supsOf cfg b := by
+  simp [supsOf, List.filterMap_append]
+
+theorem supsOf_childEvents (cfg : Cfg) (raws : F → List Raw) (sups : F → List (Bool × Suppr)) (f : F) :
+    supsOf cfg (childEvents cfg raws sups f) = decodedSups cfg (sups f) := by
+  simp only [childEvents, supsOf_append]
+  have h1 : ∀ l : List Msg, supsOf cfg (l.map Ev.err) = [] := by
+    intro l; induction l with
+    | nil => rfl
+    | cons x l ih => simpa [supsOf] using ih
+  have h2 : ∀ l : List (Bool × Suppr), supsOf cfg (l.map fun p => Ev.suppr p.1 p.2) = decodedSups cfg l := by
+    intro l; induction l with
+    | nil => rfl
+    | cons x l ih =>
+      simp only [supsOf, decodedSups, List.map_cons, List.filterMap_cons] at ih ⊢
+      cases hd : supprDecode cfg.simp x.1 (supprEncode x.2) <;> simp [ih]
+  have h3 : ∀ n, supsOf cfg [Ev.done n] = [] := fun n => rfl
+  rw [h1, h2, h3]; simp
+
+/-- received so far + still in the pipes or unsent + still to be produced = everything -/
+def ARecv (cfg : Cfg) (raws : F → List Raw) (sups : F → List (Bool × Suppr)) (files : List F) (a : AState F) : Prop :=
+  ∀ x : Suppr, a.parent.recv.count x + (a.children.map fun c => (supsOf cfg c.evs).count x).sum +
+      (a.files.map fun f => (decodedSups cfg (sups f)).count x).sum =
+    (files.map fun f => (decodedSups cfg (sups f)).count x).sum
+
+theorem astep_recv (cfg : Cfg) (jobs : Nat) (raws : F → List Raw) (sups : F → List (Bool × Suppr)) (files : List F)
+    (total : Nat) (a a' : AState F) (l : PLabel) (h : AInv cfg raws files total a) (hr : ARecv cfg raws sups files a)
+    (hs : astep cfg jobs raws sups a l = some a') : ARecv cfg raws sups files a' := by
+  intro x
+  have hx := hr x
+  cases l with
+  | fork =>
+    simp only [astep] at hs
+    split at hs
+    · cases hs
+    · rename_i f fs hf
+      split at hs
+      · simp only [Option.some.injEq] at hs
+        subst hs
+        simp only [hf, List.map_cons, List.sum_cons, List.map_append, List.sum_append, List.map_nil, List.sum_nil,
+          AChild.evs, List.nil_append, supsOf_childEvents] at hx ⊢
+        omega
+      · cases hs
+  | send i =>
+    simp only [astep] at hs
+    split at hs
+    · cases hs
+    · rename_i c hc
+      obtain ⟨la, lb, hab, hlen⟩ := getElem?_split hc
+      split at hs
+      · cases hs
+      · rename_i ev rest htodo
+        split at hs
+        · cases hs
+        · simp only [Option.some.injEq] at hs
+          subst hs
+          have hevs : ({ c with todo := rest, sent := c.sent ++ [ev] } : AChild).evs = c.evs := by simp [AChild.evs, htodo]
+          simp only [hab, ← hlen, set_split, List.map_append, List.map_cons, hevs] at hx ⊢
+          exact hx
+  | exit i =>
+    simp only [astep] at hs
+    split at hs
+    · cases hs
+    · rename_i c hc
+      obtain ⟨la, lb, hab, hlen⟩ := getElem?_split hc
+      split at hs
+      · cases hs
+      · simp only [Option.some.injEq] at hs
+        subst hs
+        simp only [hab, ← hlen, set_split, List.map_append, List.map_cons, AChild.evs] at hx ⊢
+        exact hx
+  | reap i =>
+    simp only [astep] at hs
+    split at hs
+    · cases hs
+    · rename_i c hc
+      obtain ⟨la, lb, hab, hlen⟩ := getElem?_split hc
+      split at hs
+      · cases hs
+      · simp only [Option.some.injEq] at hs
+        subst hs
+        simp only [hab, ← hlen, set_split, List.map_append, List.map_cons, AChild.evs] at hx ⊢
+        exact hx
+  | read i =>
+    simp only [astep] at hs
+    split at hs
+    · cases hs
+    · rename_i c hc
+      obtain ⟨la, lb, hab, hlen⟩ := getElem?_split hc
+      have hcm : c ∈ a.children := List.mem_of_getElem? hc
+      obtain ⟨s1, s2, s3⟩ := h.shape c hcm
+      split at hs
+      · cases hs
+      · rename_i hcond
+        simp only [Bool.or_eq_true, Bool.not_eq_true', Bool.and_eq_true, not_or, Bool.not_eq_false, not_and] at hcond
+        obtain ⟨hopen, hne⟩ := hcond
+        obtain ⟨pre, n, hevs, hpre⟩ := s2 hopen
+        split at hs
+        · rename_i hsent
+          simp only [Option.some.injEq] at hs
+          subst hs
+          simp only [hab, ← hlen, set_split, List.map_append, List.map_cons, AChild.evs, hsent] at hx ⊢
+          exact hx
+        · rename_i ev rest hsent
+          have hevg : ev.good cfg = true := h.good c hcm ev (by simp [hsent])
+          have hevs' : ev :: (rest ++ c.todo) = pre ++ [Ev.done n] := by
+            rw [← hevs]; simp [AChild.evs, hsent]
+          cases ev with
+          | done k =>
+            have hpn : pre = [] := by
+              cases pre with
+              | nil => rfl
+              | cons y pre' =>
+                simp only [List.cons_append, List.cons.injEq] at hevs'
+                exact absurd hevs'.1.symm (hpre y (by simp) k)
+            subst hpn
+            simp only [List.nil_append, List.cons.injEq, Ev.done.injEq, List.append_eq_nil_iff] at hevs'
+            obtain ⟨_, hrest, htodo⟩ := hevs'
+            simp only [applyEv, ↓reduceIte, Option.some.injEq] at hs
+            subst hs
+            simp only [hab, ← hlen, set_split, List.map_append, List.map_cons, AChild.evs, hsent, hrest, htodo, supsOf,
+              List.nil_append, List.filterMap_nil, List.append_nil, List.filterMap_cons] at hx ⊢
+            exact hx
+          | err m =>
+            simp only [applyEv, Bool.false_eq_true, ↓reduceIte, Option.some.injEq] at hs
+            subst hs
+            simp only [hab, ← hlen, set_split, List.map_append, List.map_cons, AChild.evs, hsent, supsOf,
+              List.cons_append, List.filterMap_cons] at hx ⊢
+            exact hx
+          | suppr inl sp =>
+            cases hd : supprDecode cfg.simp inl (supprEncode sp) with
+            | error e => simp [Ev.good, hd] at hevg
+            | ok sdec =>
+              simp only [applyEv, hd, Bool.false_eq_true, ↓reduceIte, Option.some.injEq] at hs
+              subst hs
+              simp only [hab, ← hlen, set_split, List.map_append, List.map_cons, AChild.evs, hsent, supsOf, hd,
+                List.cons_append, List.filterMap_cons, List.count_append, List.count_cons, List.count_nil,
+                List.sum_append, List.sum_cons] at hx ⊢
+              omega
+
+theorem arun_recv (cfg : Cfg) (hE : cfg.emitDuplicates = false) (jobs : Nat) (raws : F → List Raw)
+    (sups : F → List (Bool × Suppr)) (files : List F) (total : Nat)
+    (hgood : ∀ f ∈ files, ∀ ev ∈ childEvents cfg raws sups f, ev.good cfg = true) :
+    ∀ (σ : List PLabel) (a a' : AState F), AInv cfg raws files total a → ARecv cfg raws sups files a →
+      arun cfg jobs raws sups a σ = some a' → ARecv cfg raws sups files a' := by
+  intro σ
+  induction σ with
+  | nil => intro a a' _ hr e; simp [arun] at e; subst e; exact hr
+  | cons l σ ih =>
+    intro a a' h hr e
+    simp only [arun] at e
+    cases hs : astep cfg jobs raws sups a l with
+    | none => rw [hs] at e; cases e
+    | some a1 =>
+      rw [hs] at e
+      exact ih a1 a' (astep_inv cfg hE jobs raws sups files total hgood a a1 l h hs)
+        (astep_recv cfg jobs raws sups files total a a1 l h hr hs) e
+
+theorem aterminal_recv (cfg : Cfg) (raws : F → List Raw) (sups : F → List (Bool × Suppr)) (files : List F) (total : Nat)
+    (a : AState F) (h : AInv cfg raws files total a) (hr : ARecv cfg raws sups files a) (ht : a.conc.terminal = true) :
+    a.parent.recv.Perm (files.flatMap fun f => decodedSups cfg (sups f)) := by
+  simp only [PState.terminal, AState.conc, Bool.not_false, Bool.true_and, Bool.and_eq_true, List.isEmpty_iff,
+    List.all_eq_true, List.mem_map, forall_exists_index, and_imp, forall_apply_eq_imp_iff₂, AChild.conc,
+    Bool.not_eq_true'] at ht
+  obtain ⟨hf, hc⟩ := ht
+  have hev : ∀ c ∈ a.children, c.evs = [] := by
+    intro c hcm
+    have := (h.shape c hcm).closed_ok (hc c hcm).1
+    simp [AChild.evs, this.1, this.2]
+  apply List.perm_iff_count.2
+  intro x
+  have hx := hr x
+  have hz : (a.children.map fun c => (supsOf cfg c.evs).count x) = a.children.map fun _ => 0 := by
+    apply List.map_congr_left
+    intro c hcm
+    rw [hev c hcm]; rfl
+  have hz2 : ∀ l : List AChild, (l.map fun _ => 0).sum = 0 := by
+    intro l; induction l with
+    | nil => rfl
+    | cons y l ih => simp [ih]
+  rw [hf, hz, hz2] at hx
+  rw [List.count_flatMap]
+  simpa [Function.comp_def] using hx
+
+
 end Cppcheck.Exec
